@@ -667,6 +667,15 @@ fn c15_universe(rep: &mut Report, tier: Tier, leaves: &[RV], keys: &[&str], n: u
             if owned != eqm[x][y] {
                 t.violation("", "Unordered(a) == Unordered(b) disagrees with unordered_eq".to_string(), json!({"kind": "unordered-pair", "a": univ[i].show(), "b": univ[j].show()}));
             }
+            // the generic carriers: Meta<T, M> compares metadata too, Vec<T> compares item-wise in order
+            let (ma, mb, mc) = (locspan::Meta(vals[i].clone(), 1u8), locspan::Meta(vals[j].clone(), 1u8), locspan::Meta(vals[j].clone(), 2u8));
+            if ma.unordered_eq(&mb) != eqm[x][y] || ma.unordered_eq(&mc) {
+                t.violation("", "Meta<Value, M>::unordered_eq disagrees with unordered_eq of the values and equality of the metadata".to_string(), json!({"kind": "unordered-pair", "a": univ[i].show(), "b": univ[j].show()}));
+            }
+            let (va, vb) = (vec![Value::Null, vals[i].clone()], vec![Value::Null, vals[j].clone()]);
+            if va.unordered_eq(&vb) != eqm[x][y] || va.unordered_eq(&vec![vals[j].clone(), Value::Null]) != (eqm[x][y] && vals[i] == Value::Null) || va.unordered_eq(&vec![vals[j].clone()]) {
+                t.violation("", "Vec<Value>::unordered_eq is not the item-wise comparison in order".to_string(), json!({"kind": "unordered-pair", "a": univ[i].show(), "b": univ[j].show()}));
+            }
             if eqm[x][y] != eqm[y][x] {
                 t.violation("", "unordered_eq is not symmetric".to_string(), json!({"kind": "unordered-pair", "a": univ[i].show(), "b": univ[j].show()}));
             }
